@@ -107,6 +107,20 @@ CHECKS = {
              "breadth-first sequence by identity), find/find_related over keys x types x all 32 flag combinations "
              "(trees <=4/5), plus four large deterministic trees; compared with ref/paths.py.",
         design="DESIGN.md C14"),
+    "C18": dict(
+        engine="schedule",
+        category="model_checking",
+        technique="stateless model checking of the real loader code on real threads under a baton-passing scheduler, "
+                  "iterative preemption bounding (all schedules with <=2 quick / <=3 thorough preemptions)",
+        text="Ten caller scenarios (same URL twice, chain, two deferred loads racing for an included URL, diamond, missing / "
+             "unparsable resource directly and through an include, object API include/repository/terminology equivalents, "
+             "refresh during a deferred load, clone_section) x cache {empty, warm, stale with changed source, stale with "
+             "removed source} x {Terminologies, TemplateHandler}: every interleaving of the caller and the loader threads at "
+             "every access to the loaded/loading tables, the reload flag and at thread start (before/after), join and exit, "
+             "up to the preemption bound, is executed; per execution the caller's observations at return time are compared "
+             "with an independent resolution of the resource files, identity of later loads, no exception, no deadlock, "
+             "cache directory clauses, and all schedules of a variant must give the same observations.",
+        design="DESIGN.md 2.6, C18"),
     "C19": dict(
         engine="history",
         category="model_checking",
